@@ -30,6 +30,7 @@
 #include <pika/threading_base/thread_description.hpp>
 #include <pika/threading_base/thread_num_tss.hpp>
 
+#include <algorithm>
 #include <atomic>
 #include <cstddef>
 #include <cstdint>
@@ -110,11 +111,13 @@ namespace pika::thread_pool_bulk_detail {
                 template <typename Ts>
                 void do_work_chunk(Ts& ts, std::uint32_t const index) const
                 {
-                    auto const i_begin =
-                        static_cast<Shape>(index) * static_cast<Shape>(task_f->chunk_size);
-                    auto const i_end = (std::min)(
-                        (static_cast<Shape>(index) + 1) * static_cast<Shape>(task_f->chunk_size),
-                        task_f->n);
+                    // index < num_chunks, so i_begin < n. The end of the chunk is
+                    // computed from the remaining length so that it cannot
+                    // overflow Shape for the last chunk.
+                    Shape const i_begin = static_cast<Shape>(index * task_f->chunk_size);
+                    Shape const i_end = static_cast<Shape>(i_begin +
+                        (std::min)(static_cast<Shape>(task_f->chunk_size),
+                            static_cast<Shape>(task_f->n - i_begin)));
 #if defined(PIKA_VERIF)
                     PIKA_VERIF_POINT(1103, op_state, index, task_f->worker_thread);
                     PIKA_VERIF_POINT(1104, op_state, static_cast<std::uint64_t>(i_begin),
@@ -188,7 +191,7 @@ namespace pika::thread_pool_bulk_detail {
             {
                 operation_state* const op_state;
                 Shape const n;
-                std::uint32_t const chunk_size;
+                std::uint64_t const chunk_size;
                 std::uint32_t const worker_thread;
 
                 // Visit the values sent by the predecessor sender.
@@ -271,16 +274,30 @@ namespace pika::thread_pool_bulk_detail {
             // Compute a chunk size given a number of worker threads and
             // a total number of items n. Returns a power-of-2 chunk
             // size that produces at most 8 and at least 4 chunks per
-            // worker thread.
-            static constexpr std::uint32_t get_chunk_size(
+            // worker thread. The computation is done in 64 bits and
+            // compares against ceil(n / (8 * num_threads)) so that it
+            // cannot overflow for any shape.
+            static constexpr std::uint64_t get_chunk_size(
                 std::uint32_t const num_threads, Shape const n)
             {
-                std::uint32_t chunk_size = 1;
-                while (chunk_size * num_threads * 8 < static_cast<std::uint32_t>(n))
-                {
-                    chunk_size *= 2;
-                }
+                std::uint64_t const n64 = static_cast<std::uint64_t>(n);
+                std::uint64_t const max_chunks = static_cast<std::uint64_t>(num_threads) * 8;
+                std::uint64_t const min_chunk_size =
+                    n64 / max_chunks + (n64 % max_chunks != 0 ? 1 : 0);
+                std::uint64_t chunk_size = 1;
+                while (chunk_size < min_chunk_size) { chunk_size *= 2; }
                 return chunk_size;
+            }
+
+            // Compute the number of chunks of size chunk_size needed to
+            // cover n items. With chunk_size computed by get_chunk_size
+            // this is at most 8 * num_threads.
+            static constexpr std::uint32_t get_num_chunks(
+                Shape const n, std::uint64_t const chunk_size)
+            {
+                std::uint64_t const n64 = static_cast<std::uint64_t>(n);
+                return static_cast<std::uint32_t>(
+                    n64 / chunk_size + (n64 % chunk_size != 0 ? 1 : 0));
             }
 
             // Initialize a queue for a worker thread.
@@ -288,9 +305,11 @@ namespace pika::thread_pool_bulk_detail {
             {
                 auto& queue = op_state->queues[worker_thread].data_;
                 auto const part_begin = static_cast<std::uint32_t>(
-                    (worker_thread * num_chunks) / op_state->num_worker_threads);
+                    (static_cast<std::uint64_t>(worker_thread) * num_chunks) /
+                    op_state->num_worker_threads);
                 auto const part_end = static_cast<std::uint32_t>(
-                    ((worker_thread + 1) * num_chunks) / op_state->num_worker_threads);
+                    ((static_cast<std::uint64_t>(worker_thread) + 1) * num_chunks) /
+                    op_state->num_worker_threads);
 #if defined(PIKA_VERIF)
                 PIKA_VERIF_POINT(1102, op_state, worker_thread,
                     (static_cast<std::uint64_t>(part_begin) << 32) | part_end);
@@ -300,7 +319,7 @@ namespace pika::thread_pool_bulk_detail {
 
             // Spawn a task which will process a number of chunks. If
             // the queue contains no chunks no task will be spawned.
-            void do_work_task(Shape const n, std::uint32_t const chunk_size,
+            void do_work_task(Shape const n, std::uint64_t const chunk_size,
                 std::uint32_t const worker_thread) const
             {
                 task_function task_f{this->op_state, n, chunk_size, worker_thread};
@@ -343,7 +362,7 @@ namespace pika::thread_pool_bulk_detail {
             // from the predecessor sender. This thread participates in
             // the work and does not need a new task since it already
             // runs on a task.
-            void do_work_local(Shape n, std::uint32_t chunk_size, std::uint32_t worker_thread) const
+            void do_work_local(Shape n, std::uint64_t chunk_size, std::uint32_t worker_thread) const
             {
                 task_function{this->op_state, n, chunk_size, worker_thread}();
             }
@@ -363,7 +382,7 @@ namespace pika::thread_pool_bulk_detail {
                 // Calculate chunk size and number of chunks
                 auto const chunk_size =
                     get_chunk_size(r.op_state->num_worker_threads, r.op_state->shape);
-                auto const num_chunks = (r.op_state->shape + chunk_size - 1) / chunk_size;
+                auto const num_chunks = get_num_chunks(r.op_state->shape, chunk_size);
 #if defined(PIKA_VERIF)
                 PIKA_VERIF_POINT(1101, r.op_state, static_cast<std::uint64_t>(chunk_size),
                     static_cast<std::uint64_t>(num_chunks));
@@ -417,7 +436,7 @@ namespace pika::thread_pool_bulk_detail {
         PIKA_NO_UNIQUE_ADDRESS Shape shape;
         PIKA_NO_UNIQUE_ADDRESS F f;
         PIKA_NO_UNIQUE_ADDRESS Receiver receiver;
-        std::atomic<Shape> tasks_remaining{static_cast<Shape>(num_worker_threads)};
+        std::atomic<std::size_t> tasks_remaining{num_worker_threads};
         pika::util::detail::prepend_t<
             typename types::template value_types<std::tuple, pika::detail::variant>,
             pika::detail::monostate>
